@@ -10,10 +10,10 @@ use markdown_it::plugins::cmark;
 #[derive(Clone, Debug)]
 pub enum Op { Add(usize), Remove(usize), Parse(String) }
 
-pub const NRULES: usize = 16;
+pub const NRULES: usize = 17;
 pub const RULE_NAMES: [&str; NRULES] = ["block@", "inline-x", "inline-(", "inline-é", "inline-+", "core-stamp", "shipped-escape", "shipped-hr",
     // plugin-level: the documented `add` functions of the generics and of the shipped plugins
-    "code_pair<%,tokenize>", "code_pair<$,verbatim>", "strikethrough", "emph_pair<~,1>", "emph_pair<^,1>", "html", "emph_pair<*,3>", "code_pair<~,verbatim>"];
+    "code_pair<%,tokenize>", "code_pair<$,verbatim>", "strikethrough", "emph_pair<~,1>", "emph_pair<^,1>", "html", "emph_pair<*,3>", "code_pair<~,verbatim>", "shipped-backticks"];
 use crate::cfg::Gen;
 use markdown_it::generics::inline::{code_pair, emph_pair};
 use markdown_it::Node;
@@ -36,7 +36,8 @@ pub fn apply(md: &mut MarkdownIt, op: &Op) -> Option<String> {
             12 => emph_pair::add_with::<'^', 1, true>(md, || Node::new(Gen("sup"))),
             13 => markdown_it::plugins::html::add(md),
             14 => emph_pair::add_with::<'*', 3, true>(md, || Node::new(Gen("em3"))),
-            _ => code_pair::add_with::<'~', false>(md, |_| Node::new(Gen("tilde"))),
+            15 => code_pair::add_with::<'~', false>(md, |_| Node::new(Gen("tilde"))),
+            _ => cmark::inline::backticks::add(md),
         } None }
         Op::Remove(k) => { match k {
             0 => md.block.remove_rule::<AtRuleB>(),
@@ -52,7 +53,7 @@ pub fn apply(md: &mut MarkdownIt, op: &Op) -> Option<String> {
             10 | 11 => md.inline.remove_rule::<emph_pair::EmphPairScanner<'~', true>>(),
             12 => md.inline.remove_rule::<emph_pair::EmphPairScanner<'^', true>>(),
             13 => { md.inline.remove_rule::<markdown_it::plugins::html::html_inline::HtmlInlineScanner>(); md.block.remove_rule::<markdown_it::plugins::html::html_block::HtmlBlockScanner>() }
-            14 => md.inline.remove_rule::<code_pair::CodePairScanner<'`', false>>(),
+            14 | 16 => md.inline.remove_rule::<code_pair::CodePairScanner<'`', false>>(),
             _ => md.inline.remove_rule::<code_pair::CodePairScanner<'~', false>>(),
         } None }
         Op::Parse(d) => { let t = md.parse(d); Some(format!("{} || {}", t.render(), dump(&t, false))) }
@@ -118,6 +119,7 @@ pub fn run(n: usize, rng: &mut Rng, rep: &mut Report) {
         vec![Op::Parse("`c`".into()), Op::Add(8), Op::Parse("%p%".into())],
         vec![Op::Add(10), Op::Parse("~~s~~".into()), Op::Add(11), Op::Parse("H~2~O".into())],
         vec![Op::Add(13), Op::Parse("<b>h</b>".into()), Op::Remove(13), Op::Parse("<b>h</b>".into())],
+        vec![Op::Remove(16), Op::Add(3), Op::Parse("é `x`".into()), Op::Add(16), Op::Parse("`*x*` éé".into())],
     ];
     for i in 0..n + corpus.len() {
         let h = if i < corpus.len() { corpus[i].clone() } else { gen_history(rng) };
